@@ -12,4 +12,5 @@ func registerAll(w *world, needed map[string]bool) {
 	registerBitstring(w)
 	registerNodeEntries(w, needed)
 	registerV2(w, needed)
+	registerPayloadReceivers(w, needed)
 }
